@@ -42,7 +42,11 @@ func chanOrigin(fn *ssa.Function, v ssa.Value) string {
 				s = "call:" + calleeID(cl)
 			}
 		default:
-			if f, ok := chanField(root); ok {
+			if t, _, base, isF := fieldOfValue(root); isF && gNewTypes[t] && isFreshObject(strip(base)) {
+				// a channel held in an object of a type the reference tree does not have, made in this function
+				// (through its constructor): owned by this function like a local channel
+				s = "local"
+			} else if f, ok := chanField(root); ok {
 				s = "field:" + f
 			} else if a, ok := root.(*ssa.Alloc); ok {
 				s = "local:" + a.Comment
@@ -446,7 +450,7 @@ func checkC13(c *Ctx) Meta {
 			}
 			sites = append(sites, site{op.In, fn, []blockingOp{op}, op.Kind + ":" + shortType(op.Chan)})
 		}
-		allInstrs(fn, func(in ssa.Instruction) {
+		allInstrsShallow(fn, func(in ssa.Instruction) {
 			if _, ok := in.(*ssa.Call); !ok {
 				return
 			}
@@ -575,7 +579,7 @@ func checkChanDiscipline(c *Ctx, rule string, scope map[*ssa.Function]bool, li *
 	sort.Slice(fns, func(i, j int) bool { return fns[i].String() < fns[j].String() })
 	closedFields := map[string][]ssa.Instruction{}
 	for _, fn := range fns {
-		allInstrs(fn, func(in ssa.Instruction) {
+		allInstrsShallow(fn, func(in ssa.Instruction) {
 			ci, ok := in.(ssa.CallInstruction)
 			if !ok || calleeID(in) != "builtin.close" {
 				return
@@ -601,7 +605,7 @@ func checkChanDiscipline(c *Ctx, rule string, scope map[*ssa.Function]bool, li *
 	}
 	// sends on closable channels
 	for _, fn := range fns {
-		allInstrs(fn, func(in ssa.Instruction) {
+		allInstrsShallow(fn, func(in ssa.Instruction) {
 			s, ok := in.(*ssa.Send)
 			if !ok {
 				return
@@ -991,7 +995,7 @@ func checkPopGuard(c *Ctx, pkg, label string, li *lockInfo) {
 		if pkgOf(fn) != pkg {
 			continue
 		}
-		for _, pop := range callsIn(fn, prque+"Pop", prque+"PopItem") {
+		for _, pop := range callsInShallow(fn, prque+"Pop", prque+"PopItem") {
 			// only pops on the heap of a plotterQueue (field Prque)
 			t, f, base, ok := fieldOfValue(callRecv(pop))
 			if !ok || t != qType || f != "Prque" {
@@ -1005,7 +1009,7 @@ func checkPopGuard(c *Ctx, pkg, label string, li *lockInfo) {
 				}
 			}
 			var tests []boolTest
-			for _, e := range callsIn(fn, prque+"Empty") {
+			for _, e := range callsInShallow(fn, prque+"Empty") {
 				if t2, f2, b2, ok := fieldOfValue(callRecv(e)); ok && t2 == qType && f2 == "Prque" && accessPath(b2) == accessPath(base) {
 					tests = append(tests, boolTestsOf(fn, e)...)
 				}
@@ -1028,7 +1032,7 @@ func checkPopGuard(c *Ctx, pkg, label string, li *lockInfo) {
 		if pkgOf(fn) != pkg {
 			continue
 		}
-		for _, cl := range callsIn(fn, "(*"+qType+").PopItem", "(*"+qType+").Pop") {
+		for _, cl := range callsInShallow(fn, "(*"+qType+").PopItem", "(*"+qType+").Pop") {
 			p := accessPath(callRecv(cl))
 			if !strings.HasSuffix(p, ".queue") {
 				continue // function-local queues are not shared
@@ -1116,7 +1120,7 @@ func onceLifetimeMatchesChannel(c *Ctx, fn *ssa.Function, closeIn ssa.Instructio
 		if !inRepo(g) {
 			continue
 		}
-		for _, a := range fieldAccesses(g) {
+		for _, a := range fieldAccessesShallow(g) {
 			if a.Kind != "store" || a.Type != chT || a.Field != chF || isFreshObject(a.Base) {
 				continue
 			}
@@ -1127,7 +1131,7 @@ func onceLifetimeMatchesChannel(c *Ctx, fn *ssa.Function, closeIn ssa.Instructio
 				return fmt.Sprintf("%s.%s is re-created in %s but the Once guarding its close (%s) is a value that lives as long as the object: after the first stop the next run's channel can never be closed", shortType(chT), chF, g.Name(), onF), false
 			}
 			paired := false
-			for _, b := range fieldAccesses(g) {
+			for _, b := range fieldAccessesShallow(g) {
 				if b.Kind == "store" && b.Type == onT && b.Field == onF {
 					if al, isAl := strip(b.In.(*ssa.Store).Val).(*ssa.Alloc); isAl && al.Heap {
 						r := reach(g, a.In, nil, func(in ssa.Instruction) bool { return in == b.In })
@@ -1170,6 +1174,66 @@ func checkMonitorPerPlot(c *Ctx, rule, pkg, label string) {
 			goi, ok := in.(*ssa.Go)
 			if !ok {
 				return
+			}
+			// the channel may be a field of a per-plot job object of a type the reference tree does not have
+			// (`go job.monitor(&wg)` … `close(job.killMonitorCh)`): then the object is made in the iteration
+			// (its constructor is called there), the field holds a channel made for it, and it is released by close()
+			for _, a := range goi.Call.Args {
+				pt, isP := a.Type().Underlying().(*types.Pointer)
+				if !isP {
+					continue
+				}
+				nt, isN := pt.Elem().(*types.Named)
+				if !isN || nt.Obj().Pkg() == nil || !gNewTypes[nt.Obj().Pkg().Path()+"."+nt.Obj().Name()] {
+					continue
+				}
+				st, isS := nt.Underlying().(*types.Struct)
+				if !isS {
+					continue
+				}
+				for fi := 0; fi < st.NumFields(); fi++ {
+					if _, isCh := st.Field(fi).Type().Underlying().(*types.Chan); !isCh {
+						continue
+					}
+					n++
+					k := fmt.Sprintf("%s.%s#%d", nt.Obj().Pkg().Path(), nt.Obj().Name(), fi)
+					perPlot := len(gNewTypeStores[k]) > 0
+					for _, v := range gNewTypeStores[k] {
+						mk, isM := strip(v).(*ssa.MakeChan)
+						if !isM {
+							perPlot = false
+							continue
+						}
+						site := siteIn(g, mk)
+						if site == nil || !blockReentered(g, site) {
+							perPlot = false
+						}
+					}
+					closed, sent := false, false
+					for _, h := range bodyFns(f, nil) {
+						allInstrsShallow(h, func(x ssa.Instruction) {
+							isField := func(v ssa.Value) bool {
+								t, fld, _, ok := fieldOfValue(v)
+								return ok && fld == st.Field(fi).Name() && strings.HasSuffix(t, "."+nt.Obj().Name())
+							}
+							switch y := x.(type) {
+							case *ssa.Call:
+								if b, isB := y.Call.Value.(*ssa.Builtin); isB && b.Name() == "close" && isField(y.Call.Args[0]) {
+									closed = true
+								}
+							case *ssa.Send:
+								if isField(y.Chan) {
+									sent = true
+								}
+							}
+						})
+					}
+					if !perPlot {
+						bad = "the monitor channel held in " + nt.Obj().Name() + "." + st.Field(fi).Name() + " is not made anew for the job started in this loop iteration"
+					} else if !closed || sent {
+						bad = fmt.Sprintf("the monitor channel held in %s.%s is not released by close() alone (closed=%v, token sent=%v)", nt.Obj().Name(), st.Field(fi).Name(), closed, sent)
+					}
+				}
 			}
 			for _, a := range goi.Call.Args {
 				if _, isCh := a.Type().Underlying().(*types.Chan); !isCh {
